@@ -307,6 +307,9 @@ theorem compute_ghostW_aux (H : FixV3) (N : Nat) : ∀ node : Node, sizeOf node 
     · -- if
       rename_i cond t f
       rw [desugar] at hd
+      by_cases hcv : changesVariable cond = true
+      · rw [if_pos hcv] at hd; cases hd
+      rw [if_neg hcv] at hd
       rw [namesOkA] at hn
       simp only [Bool.and_eq_true] at hn
       cases ha : desugarO t with
@@ -365,6 +368,9 @@ theorem compute_ghostW_aux (H : FixV3) (N : Nat) : ∀ node : Node, sizeOf node 
     · -- while
       rename_i cond b
       rw [desugar] at hd
+      by_cases hcv : changesVariable cond = true
+      · rw [if_pos hcv] at hd; cases hd
+      rw [if_neg hcv] at hd
       rw [namesOkA] at hn
       cases hdb : desugar b with
       | none => simp [hdb] at hd
@@ -384,6 +390,9 @@ theorem compute_ghostW_aux (H : FixV3) (N : Nat) : ∀ node : Node, sizeOf node 
     · -- do-while
       rename_i cond b
       rw [desugar] at hd
+      by_cases hcv : changesVariable cond = true
+      · rw [if_pos hcv] at hd; cases hd
+      rw [if_neg hcv] at hd
       rw [namesOkA] at hn
       cases hdb : desugar b with
       | none => simp [hdb] at hd
